@@ -200,7 +200,9 @@ def ofQuantizer (q : QKerasQ) : Option QRec :=
   | "quantized_bits" =>
     some { tQuantizedBits with bits := q.bits, intBits := q.integer, signed := q.keepNegative }
   | "quantized_tanh" =>
-    some { tQuantizedBits with name := .quantized_tanh, bits := q.bits, signed := true }
+    -- `int_bits = 0` since the repair "QuantizedTanh.convert_qkeras_quantizer sets int_bits"
+    some { tQuantizedBits with name := .quantized_tanh, bits := q.bits, intBits := 0,
+                               signed := true }
   | "quantized_ulaw" =>
     some { tQuantizedBits with name := .quantized_ulaw, bits := q.bits, intBits := q.integer,
                                signed := true }
